@@ -894,7 +894,7 @@ func Run(cfg vh.Config) (*vh.Result, error) {
 				return nil, err
 			}
 		}
-		n := cfg.Pick(900, 40000)
+		n := cfg.Pick(700, 40000)
 		for i := 0; i < n; i++ {
 			c := genCase(rng, cfg, i)
 			if err := runCase(c); err != nil {
